@@ -504,6 +504,17 @@ def rewrite_body(text, rules_log, intended_panics=False, keep_asserts=False):
                     out.append(Tok("ident", f"{t.text}(|v| -> (o: {ty}) ensures o == {c}(v) {{ {c}(v) }})", t.pos))
                     i = close + 1
                     continue
+        # R11b: an `async [move] { .. }` block is NOT verified: it is replaced by an opaque future constructor
+        if t.kind == "ident" and t.text == "async":
+            j = _next_sig(toks, i + 1)
+            if j < n and toks[j].text == "move":
+                j = _next_sig(toks, j + 1)
+            if j < n and toks[j].text == "{":
+                close = match_close(toks, j)
+                rules_log.append(("R11b", "async block (%d tokens) replaced by vasync_block(): its body is not verified" % (close - j)))
+                out.append(Tok("ident", "vasync_block()", t.pos))
+                i = close + 1
+                continue
         # R10: closure parameter `_`
         if t.kind == "punct" and t.text == "|":
             j = _next_sig(toks, i + 1)
